@@ -611,7 +611,14 @@ def forward_closure(ctx):
             (lambda kk, vv: kk == 'rv' and vv[2]['rv']['k'] == 'use' and op_place(vv[2]['rv']['op']) is not None and any(isinstance(e, dict) and e.get('n') == 'id' and e.get('adt') == 'runtime_scope::RuntimeScopeTemplate' for e in op_place(vv[2]['rv']['op'])['p']))(*mirq.chase_op(b, o))
             for o in (s['rv']['a'], s['rv']['b']))
         for i, j, s in b.stmts())]
-    ok = has_field and any(w in readers for w in walkers)
+    reader_ids = {r.nid for r in readers}
+
+    def consults(w):
+        if w in readers:
+            return True
+        # ... or through a private helper of the same file (`self.stack_root()`)
+        return any(strip_generics(tm.get('callee') or '') in reader_ids for bb, tm in w.calls())
+    ok = has_field and any(consults(w) for w in walkers)
     r11.inst({'parent_search_bodies': [w.nid for w in walkers], 'caller_link_read_by_the_search': ok}, ok=ok)
     if not ok:
         r11.fail('scope-parent-search/no-root-fallback', mirq.site(walkers[0], 0) if walkers else 'src/runtime_scope.rs', 'the lexical parent of a called function is searched along the lexical links of the calling scope only: called from a function value that escaped its creator (no lexical link), even a function declared at the root finds no parent, and a pending forward capture then panics ("ran out of scope parents at runtime")')
